@@ -154,6 +154,9 @@ def open_frames(conf):
         'cisco_only': SG.frame(1, SG.open_body(ras, 90, caps=SG.cap(1, b'\x00\x01\x00\x01') + SG.cap(128)
                                                + SG.cap(65, struct.pack('!I', ras)))).hex(),
         'rr_no_mp': SG.frame(1, SG.open_body(ras, 90, caps=SG.cap(2) + SG.cap(65, struct.pack('!I', ras)))).hex(),
+        # RFC 2918 route refresh only (no Cisco type 128): what the agent writes follows what THIS peer advertised
+        'rr_only': SG.frame(1, SG.open_body(ras, 90, caps=SG.cap(1, b'\x00\x01\x00\x01') + SG.cap(2)
+                                            + SG.cap(65, struct.pack('!I', ras)))).hex(),
     }
 
 
@@ -185,7 +188,7 @@ def state_prefixes(conf, tier):
                                 {'k': 'connok', 'c': 1}, {'k': 'chunk', 'c': 1, 'hex': of['std']},
                                 {'k': 'chunk', 'c': 1, 'hex': KA}],
     }
-    for name in ('nocaps', 'as2_rr', 'mp_only', 'cisco_only', 'rr_no_mp'):
+    for name in ('nocaps', 'as2_rr', 'mp_only', 'cisco_only', 'rr_no_mp', 'rr_only'):
         if of[name] is not None:
             out['established_' + name] = up + [{'k': 'chunk', 'c': 0, 'hex': of[name]}, {'k': 'chunk', 'c': 0, 'hex': KA}]
     # a second session whose peer advertises OTHER capabilities than the peer of the first one did (the router was replaced
